@@ -141,6 +141,7 @@ func (e *Engine) runJob(h *HarnessSpec, shard, nshards int, solverCmd []string, 
 	w := &Worker{eng: e, job: res, shard: shard, nshards: nshards, maxSteps: h.Steps,
 		deadline: time.Now().Add(time.Duration(h.Timeout) * time.Second), maxDepth: 400, fnSeen: map[*ssa.Function]int{}, noMerge: h.NoMerge, mergeConcrete: h.MergeConcrete, trace: trace}
 	w.solver = newSolver(solverCmd, timeoutMs)
+	w.scoped = e.scopedRedirect[h.Pkg]
 	if os.Getenv("VERIF_PROFILE") != "" {
 		w.profile = map[string]int{}
 	}
@@ -192,7 +193,7 @@ func (e *Engine) runJob(h *HarnessSpec, shard, nshards int, solverCmd []string, 
 			}
 		}
 	}()
-	st := &State{base: e.base, heap: map[int]Value{}, nextID: e.baseNext}
+	st := &State{base: e.base, heap: map[int]Value{}, nextID: e.baseNext, fs: e.baseFS}
 	outs := w.call(st, &FuncV{fn: h.Fn}, nil, 0, "harness")
 	res.Paths = len(outs)
 	for i, o := range outs {
